@@ -833,6 +833,12 @@ func (e *Env) evalCall(n *ast.CallExpr) (Val, bool) {
 				return e.fail("str needs a byte slice")
 			}
 			return scalar(x.uf("bytes2str", sStr, a.Fs[0].T, a.Fs[1].T, a.Fs[2].T), types.Typ[types.String]), true
+		case "itoa":
+			a, ok := e.eval(n.Args[0])
+			if !ok {
+				return a, false
+			}
+			return scalar(x.uf("itoa", sStr, a.T), types.Typ[types.String]), true
 		case "indexof":
 			if len(n.Args) != 2 {
 				return e.fail("indexof needs (s, sub)")
